@@ -27,10 +27,10 @@ func rmScratch(d string)         { os.RemoveAll(d) }
 
 var (
 	// no ',' ';' and no leading/trailing blanks: the Keywords entry is one separator-joined string
-	kwAlphabet = []string{"alpha", "β-Ünï cødé", "日本語 キー", "key (paren) [b]", `back\slash`, "אבג דה", "a/b#c%", "𝔘𝔫𝔦 astral", "é combining"}
+	kwAlphabet = []string{"alpha", "β-Ünï cødé", "日本語 キー", "key (paren) [b]", `back\slash`, "אבג דה", "a/b#c%", "𝔘𝔫𝔦 astral", "é combining", "Ã©tude"} // the last: Latin-1 text whose single-byte codes form well-formed UTF-8
 	// standard Info keys (Title, Author, ...) are not "properties"; keys are PDF names
 	propKeys = []string{"Project", "k2", "Ключ", "key with space", "a/b", "p(1)", "100%", "a#b"}
-	propVals = []string{"v", "Ω verification", "值 二", "(paren) \\ back", "line1 line2", "𝔞 astral", "ﬁ ligature é", "#/%<>[]"}
+	propVals = []string{"v", "Ω verification", "值 二", "(paren) \\ back", "line1 line2", "𝔞 astral", "ﬁ ligature é", "#/%<>[]", "21 Â°C", "naÃ¯ve â€¢"}
 	layouts  = []string{"SinglePage", "TwoColumnLeft", "TwoColumnRight", "TwoPageLeft", "TwoPageRight", "OneColumn"}
 	modes    = []string{"UseNone", "UseOutlines", "UseThumbs", "FullScreen", "UseOC", "UseAttachments"}
 	vpBools  = []string{"HideToolbar", "HideMenubar", "HideWindowUI", "FitWindow", "CenterWindow", "DisplayDocTitle", "PickTrayByPDFSize"}
